@@ -68,9 +68,42 @@ func fallthroughTest(n int) (out int) {
 	return out
 }
 
+type triple struct {
+	a, b int
+	c    [3]int
+	next *triple
+}
+
+var sharedTriple triple
+
+// copies exercises multi-word copies in every form the instrumenter splits.
+func copies() string {
+	t := triple{a: 1, b: 2, c: [3]int{3, 4, 5}}
+	u := t // define from a pure expression
+	u.a = 7
+	var v triple
+	v = u // assign from a pure expression
+	p := &v
+	*p = triple{a: 9, b: v.b, c: v.c} // assign from a composite literal that reads the target
+	w := &triple{a: 1, next: &triple{a: 2, b: 3}}
+	*w = *w.next // source reachable from the target
+	arr := [4]int{1, 2, 3, 4}
+	brr := arr
+	brr[0] = 8
+	arr = brr
+	sharedTriple = t
+	if c := sharedTriple; c.a == 1 && c.b == 2 {
+		t.b += c.c[0] - 3
+	} else if d := sharedTriple; d.a == 5 {
+		t.b = 0
+	}
+	q := sharedTriple
+	return fmt.Sprint(t.a, u.a, v.a, v.b, v.c, w.a, w.b, arr, q.c, ";")
+}
+
 // Run drives everything and returns a digest.
 func Run() string {
-	res := ""
+	res := copies()
 outer:
 	for i := 0; i < 4; i++ {
 		for j := 0; j < 4; j++ {
